@@ -61,9 +61,11 @@ class C06(Check):
               "fn_to_sympy on a claimed path tests the result for None (or uses it arithmetically) before formatting/storing it",
         "S10": "presence tests: a value fetched from the symbol table (ctx.symbols.get / lookup results) is tested with `is None` / "
                "`in`, never by truthiness - a translated value can be a falsy sympy zero, which a truthiness test mistakes for 'absent'",
+        "S11": "operator semantics: every handled Python operator is translated by the same operator applied to the translated operands "
+               "(+ - * / ** % // ; unary + -; comparison ops), and `a if c else b` becomes Piecewise((a, c), (b, True))",
         "S9": "tuple assignment evaluates all right-hand sides before binding any target",
     }
-    floors = {"S1": 6, "S2": 3, "S3": 2, "S4": 1, "S5": 2, "S6": 1, "S7": 60, "S8": 8, "S9": 1, "S10": 3}
+    floors = {"S1": 6, "S2": 3, "S3": 2, "S4": 1, "S5": 2, "S6": 1, "S7": 60, "S8": 8, "S9": 1, "S10": 3, "S11": 12}
     decided = [
         "constructs outside the supported subset make the translation fail visibly instead of being skipped",
         "conditionals: branches cannot see each other's assignments; code after an if/else is applied to every branch",
@@ -106,6 +108,7 @@ class C06(Check):
         self.s7(mod)
         self.s8(mod, entry)
         self.s10(mod)
+        self.s11(mod)
 
     def _chains_after(self, fn, node, var):
         out = []
@@ -387,6 +390,52 @@ class C06(Check):
                         self.violated("S8", rel, fname, cons, c, f"a failed translation (None) is not detected here: {why}",
                                       witness="an untranslatable function is printed as `None` / stored as None instead of raising")
 
+    def s11(self, mod) -> None:
+        BIN = {"Add": "left + right", "Sub": "left - right", "Mult": "left * right", "Div": "left / right", "Pow": "left ** right", "Mod": "left % right", "FloorDiv": "left // right"}
+        UN = {"UAdd": "+left", "USub": "-left"}
+        for fname, table in (("_handle_binop", BIN), ("_handle_unaryop", UN)):
+            fn = mod.func(fname)
+            m = [n for n in walk_no_nested(fn) if isinstance(n, ast.Match)]
+            if not m:
+                raise AnalysisError(f"{fname}: operator dispatch not found")
+            for c in m[0].cases:
+                if not isinstance(c.pattern, ast.MatchClass):
+                    continue
+                k = norm(c.pattern.cls).split(".")[-1]
+                got = norm(c.body[-1].value) if isinstance(c.body[-1], ast.Return) else "?"
+                if k not in table:
+                    self.info("S11", MOD, fname, f"operator {k}", c.body[-1], f"unvetted operator -> {got}")
+                elif got == table[k]:
+                    self.holds("S11", MOD, fname, f"operator {k}", c.body[-1], f"{k} -> {got}")
+                else:
+                    self.violated("S11", MOD, fname, f"operator {k}", c.body[-1], f"Python {k} is translated as `{got}` instead of `{table[k]}`",
+                                  witness=f"a rate law using the {k} operator translates to an expression with different values")
+        he = mod.func("_handle_expr")
+        CMP = {"Gt": "prev_value > right", "GtE": "prev_value >= right", "Lt": "prev_value < right", "LtE": "prev_value <= right",
+               "Eq": "sympy.Eq(prev_value, right)", "NotEq": "sympy.Ne(prev_value, right)"}
+        for n in walk_no_nested(he):
+            if isinstance(n, ast.If):
+                r = isinstance_kinds(n.test)
+                if r and len(r[1]) == 1 and next(iter(r[1])) in CMP:
+                    k = next(iter(r[1]))
+                    got = norm(n.body[0].value.args[0]) if isinstance(n.body[0], ast.Expr) and isinstance(n.body[0].value, ast.Call) and n.body[0].value.args else "?"
+                    if got == CMP[k]:
+                        self.holds("S11", MOD, "_handle_expr", f"comparison {k}", n.body[0], f"{k} -> {got}")
+                    else:
+                        self.violated("S11", MOD, "_handle_expr", f"comparison {k}", n.body[0], f"Python comparison {k} is translated as `{got}` instead of `{CMP[k]}`",
+                                      witness="a conditional rate law switches branches at the wrong side of its threshold")
+        pw = [r for r in walk_no_nested(he) if isinstance(r, ast.Return) and "Piecewise" in norm(r.value) and "if_true" in norm(r.value)]
+        if pw and norm(pw[0].value) == "sympy.Piecewise((if_true, condition), (if_false, True))":
+            defs = {norm(a.targets[0]): norm(a.value) for a in walk_no_nested(he) if isinstance(a, ast.Assign) and isinstance(a.targets[0], ast.Name)}
+            if (defs.get("condition"), defs.get("if_true"), defs.get("if_false")) == ("_handle_expr(node.test, ctx)", "_handle_expr(node.body, ctx)", "_handle_expr(node.orelse, ctx)"):
+                self.holds("S11", MOD, "_handle_expr", "conditional-expression", pw[0], "a if c else b -> Piecewise((a, c), (b, True))")
+            else:
+                self.violated("S11", MOD, "_handle_expr", "conditional-expression", pw[0], f"conditional expression operands are bound as {defs}",
+                              witness="`a if c else b` translates with its branches or condition exchanged")
+        else:
+            self.violated("S11", MOD, "_handle_expr", "conditional-expression", pw[0] if pw else he, "`a if c else b` is not translated as Piecewise((a, c), (b, True))",
+                          witness="`a if c else b` translates with its branches exchanged")
+
     def s10(self, mod) -> None:
         """Truthiness tests on values that may be symbolic expressions."""
         sources = ("ctx.symbols.get(", "symbols.get(", "_handle_expr(", "fn_to_sympy(", "_handle_call(", "_handle_attribute(", "_handle_name(")
@@ -457,6 +506,10 @@ class C06(Check):
                     "                for target, value_expr in zip(target_elements, node.value.elts, strict=True):\n                    ctx.symbols[cast(ast.Name, target).id] = _handle_expr(value_expr, ctx)", expect="S9|"),
             Variant("truthiness-lookup", MOD, "_handle_name", "    value = ctx.symbols.get(node.id)\n    if value is None:", "    value = ctx.symbols.get(node.id)\n    if not value:", expect="S10|", quick=True),
             Variant("truthiness-call-args", MOD, "_handle_call", "        if (expr := _handle_expr(i, ctx)) is None:\n            return None", "        if not (expr := _handle_expr(i, ctx)):\n            return None", expect="S10|"),
+            Variant("ifexp-branches-swapped", MOD, "_handle_expr", "return sympy.Piecewise((if_true, condition), (if_false, True))", "return sympy.Piecewise((if_false, condition), (if_true, True))", expect="S11|", quick=True),
+            Variant("usub-dropped", MOD, "_handle_unaryop", "return -left", "return left", expect="S11|"),
+            Variant("floordiv-as-truediv", MOD, "_handle_binop", "return left // right", "return left / right", expect="S11|"),
+            Variant("gt-as-ge", MOD, "_handle_expr", "comparisons.append(prev_value > right)", "comparisons.append(prev_value >= right)", expect="S11|"),
             Variant("mxlpy-codegen-no-none-check", "meta/codegen_mxlpy.py", "_fn_to_symbolic_repr", "    if (expr := fn_to_sympy(fn, origin=k, model_args=args)) is None:\n        msg = f\"Unable to parse fn for '{k}'\"\n        raise ValueError(msg)\n",
                     "    expr = fn_to_sympy(fn, origin=k, model_args=args)\n", expect="S8|"),
         ]
